@@ -5,6 +5,7 @@ package verifsim
 import (
 	"fmt"
 	"reflect"
+	"sort"
 	"strings"
 
 	jsonpatch "github.com/evanphx/json-patch"
@@ -697,6 +698,31 @@ func (s *Sim) stampTimes(old, next Obj) {
 			em["time"] = now
 		}
 	}
+	// The field manager sorted the entries by the wall-clock times it stamped
+	// itself. Re-sort by the simulated times with the API server's rule
+	// (apimachinery managedfields: applies first, updates by time, then manager,
+	// apiVersion, subresource), otherwise the stored order contradicts the stored
+	// times and the next no-op write would reorder the entries, i.e. change bytes.
+	str := func(e any, k string) string {
+		m, _ := e.(map[string]any)
+		s, _ := m[k].(string)
+		return s
+	}
+	sort.SliceStable(mf, func(i, j int) bool {
+		p, q := mf[i], mf[j]
+		if a, b := str(p, "operation"), str(q, "operation"); a != b {
+			return a < b
+		}
+		if a, b := str(p, "time"), str(q, "time"); str(p, "operation") == "Update" && a != b {
+			return a < b
+		}
+		for _, k := range []string{"manager", "apiVersion", "subresource"} {
+			if a, b := str(p, k), str(q, k); a != b {
+				return a < b
+			}
+		}
+		return false
+	})
 }
 
 func mfIdent(em map[string]any) string {
